@@ -16,7 +16,9 @@ impl Message {
     pub fn new(header: Header, query: Vec<u8>, body: Vec<u8>) -> Result<Self, RepeError> {
         if header.query_length != query.len() as u64 || header.body_length != body.len() as u64 {
             return Err(RepeError::LengthMismatch {
-                expected: HEADER_SIZE as u64 + header.query_length + header.body_length,
+                expected: (HEADER_SIZE as u64)
+                    .saturating_add(header.query_length)
+                    .saturating_add(header.body_length),
                 got: HEADER_SIZE as u64 + query.len() as u64 + body.len() as u64,
             });
         }
@@ -127,7 +129,9 @@ impl Message {
             return Err(RepeError::InvalidHeaderLength(buf.len()));
         }
         let header = Header::decode(&buf[..HEADER_SIZE])?;
-        let expected = HEADER_SIZE + header.query_length as usize + header.body_length as usize;
+        // `Header::decode` has checked `length == 48 + query_length + body_length`
+        // without overflow; a frame longer than the address space cannot be in `buf`.
+        let expected = usize::try_from(header.length).unwrap_or(usize::MAX);
         if buf.len() < expected {
             return Err(RepeError::BufferTooSmall {
                 need: expected,
@@ -263,7 +267,9 @@ impl<'a> MessageView<'a> {
             return Err(RepeError::InvalidHeaderLength(buf.len()));
         }
         let header = Header::decode(&buf[..HEADER_SIZE])?;
-        let expected = HEADER_SIZE + header.query_length as usize + header.body_length as usize;
+        // `Header::decode` has checked `length == 48 + query_length + body_length`
+        // without overflow; a frame longer than the address space cannot be in `buf`.
+        let expected = usize::try_from(header.length).unwrap_or(usize::MAX);
         if buf.len() < expected {
             return Err(RepeError::BufferTooSmall {
                 need: expected,
